@@ -25,6 +25,9 @@ inductive PArg where
   | slice (start : Nat)
   /-- `values.as_vec()` where `Value::List(values)` matched `&parameters[i]` -/
   | itemsOf (i : Nat)
+  /-- `std::slice::from_ref(&parameters[i])`: the slice of that one parameter (only produced
+  by translating a named call, see `NArg.single`) -/
+  | single (i : Nat)
   deriving DecidableEq, Repr, Inhabited
 
 structure PCall where
@@ -80,6 +83,7 @@ def PArg.inst (args : List Value) : PArg → Option CoreArg
     match args[i]? with
     | some (.list xs) => some (.vs xs)
     | _ => none
+  | .single i => (args[i]?).map (fun v => .vs [v])
 
 abbrev Core := String → List CoreArg → Option (Outcome Value)
 
@@ -101,6 +105,8 @@ inductive NArg where
   | var (name : String)
   /-- `list.as_vec()` where `Some((Value::List(list), _))` matched the parameter -/
   | itemsOf (name : String)
+  /-- `std::slice::from_ref(value)`: the bound value as a slice of one item -/
+  | single (name : String)
   | nullLit
   deriving DecidableEq, Repr, Inhabited
 
@@ -149,6 +155,7 @@ def NArg.inst (named : NamedArgs) : NArg → Option CoreArg
     match named.get name with
     | some (.list xs) => some (.vs xs)
     | _ => none
+  | .single name => (named.get name).map (fun v => .vs [v])
 
 /-- `named::evaluate_bif` for one built-in -/
 def evalNamed (core : Core) (row : NamedRow) (named : NamedArgs) : Option (Outcome Value) :=
@@ -168,14 +175,23 @@ def bindNames (names : List String) (args : List Value) : NamedArgs := names.zip
 def NArg.toPos (names : List String) : NArg → PArg
   | .var name => .param (names.idxOf name)
   | .itemsOf name => .itemsOf (names.idxOf name)
+  | .single name => .single (names.idxOf name)
   | .nullLit => .nullLit
 
 def NCall.toPos (names : List String) (c : NCall) : PCall := ⟨c.fn, c.args.map (NArg.toPos names)⟩
 
+/-- with exactly one parameter, the whole slice `parameters` is the slice of that parameter -/
+def PArg.norm (n : Nat) : PArg → PArg
+  | .slice 0 => if n = 1 then .single 0 else .slice 0
+  | a => a
+
+def PCall.norm (n : Nat) (c : PCall) : PCall := ⟨c.fn, c.args.map (PArg.norm n)⟩
+
 /-- for arguments of the given shape (which are lists), do both tables make the same
 `core::` call with the same arguments (or both none)? -/
 def formAgrees (prow : PosRow) (nrow : NamedRow) (names : List String) (shape : List Bool) : Bool :=
-  (nrow.body.resolve (fun k => shape[names.idxOf k]?)).map (NCall.toPos names) == prow.resolve shape
+  (nrow.body.resolve (fun k => shape[names.idxOf k]?)).map (NCall.toPos names)
+    == (prow.resolve shape).map (PCall.norm shape.length)
 
 def shapes : Nat → List (List Bool)
   | 0 => [[]]
@@ -205,6 +221,7 @@ def PArg.safe (n : Nat) (lists : List Nat) : PArg → Bool
   | .nullLit => true
   | .slice start => decide (start ≤ n)
   | .itemsOf i => lists.contains i
+  | .single i => decide (i < n)
 
 def PBody.safe (n : Nat) (lists : List Nat) : PBody → Bool
   | .call c => c.args.all (PArg.safe n lists)
